@@ -446,6 +446,27 @@ func (c *Ctx) handlerFrameRule(rule string) {
 			if cnt != 1 || c.LoopDepth(hc.Site.Block()) != 0 {
 				ok, why = false, fmt.Sprintf("%d handler calls share one recovered frame (or the call is in a loop): a panic would skip siblings", cnt)
 			}
+			// deferred calls run last-in-first-out: anything deferred BEFORE the hook runs AFTER it has returned, with
+			// nothing left to recover a panic there - only calls that cannot panic may be registered first
+			for _, d := range defs {
+				if !instrDominates(d, hc.Site) {
+					continue
+				}
+				funcInstrs(fn, func(x ssa.Instruction) {
+					d2, isD := x.(*ssa.Defer)
+					if !isD || d2 == d || instrDominates(d, d2) {
+						return
+					}
+					switch calleeName(&d2.Call) {
+					case "(*sync.WaitGroup).Done", "(*sync.Mutex).Unlock", "(*sync.RWMutex).Unlock", "(*sync.RWMutex).RUnlock":
+						return
+					}
+					if fv, _ := loadedField(d2.Call.Value); fv == c.A.CfgRecover {
+						return
+					}
+					ok, why = false, "the call deferred at "+c.InstrPos(d2)+" is registered before the recovery hook, so it runs after the hook has returned: a panic in it kills the process"
+				})
+			}
 		}
 		r.Add(rule, "protected:"+c.FuncKey(fn), c.InstrPos(hc.Site), c.FuncKey(fn), "handler code is invoked under a deferred call of the configured recovery hook, one handler per frame", ok, why)
 	}
